@@ -49,7 +49,7 @@ func bigOf(x int64) *big.Int { return new(big.Int).SetInt64(x) }
 func VerifC07Vote() {
 	e := c07Setup()
 	ctx, k := e.ctx, e.k
-	nU := len(c07Universe)
+	nU := vs.Param("n_signals") // size of the signal universe (<= 3)
 	voterA, voterB := venv.Addr(1), venv.Addr(2)
 
 	p := types.DefaultParams()
@@ -159,6 +159,15 @@ func VerifC07Vote() {
 		}
 	}
 	vs.Assert("index-size", len(byPower) == nonZero)
+	// the raw index holds exactly one entry per non-zero total (no stale entries left behind, even ones that the
+	// getter would skip today)
+	rawEntries := 0
+	it := k.SignalTotalPowersByPowerStoreIterator(ctx)
+	for ; it.Valid(); it.Next() {
+		rawEntries++
+	}
+	it.Close()
+	vs.Assert("index-has-no-stale-entries", rawEntries == nonZero)
 	for i := range byPower {
 		st, gerr := k.GetSignalTotalPower(ctx, byPower[i].ID)
 		vs.Assert("index-entry-live", gerr == nil && st.Power == byPower[i].Power)
